@@ -172,11 +172,31 @@ fn rep_set() -> Vec<Vec<Vec<Option<u32>>>> {
 }
 
 fn run_sgr(seqs: &[Vec<Vec<Option<u32>>>], c1: bool) -> Result<(), String> {
+    run_sgr_pre("", seqs, c1)
+}
+
+/// `pre` is fed before every SGR: input that dispatches nothing (a cancelled,
+/// ignored or unfinished sequence, a control string) and so must not reach the pen
+fn run_sgr_pre(pre: &str, seqs: &[Vec<Vec<Option<u32>>>], c1: bool) -> Result<(), String> {
+    match crate::engine::guarded(|| run_sgr_inner(pre, seqs, c1)) {
+        Ok(r) => r,
+        Err(p) => Err(format!("panic: {}", p)),
+    }
+}
+
+fn run_sgr_inner(pre: &str, seqs: &[Vec<Vec<Option<u32>>>], c1: bool) -> Result<(), String> {
     // feed each SGR in lock-step, then print + erase and compare cells
     let cfg = Cfg::new(2, 1, Some(0));
     let mut st = LSt { vt: cfg.build(), model: RefTerm::new(2, 1), dead: false };
     st.model.no_scrollback = true;
     for toks in seqs {
+        if !pre.is_empty() {
+            match lock_apply(&mut st, &Op::new(Inert(pre.to_string()))) {
+                Outcome::Ok => {}
+                Outcome::Unspecified(w) => return Err(format!("unexpectedly unspecified: {}", w)),
+                Outcome::Mismatch(_, w) => return Err(format!("after the non-dispatching input {}: {}", esc(pre), w)),
+            }
+        }
         let op = Op::sp(Sgr(toks.clone()), if c1 { SP8 } else { SP7 });
         match lock_apply(&mut st, &op) {
             Outcome::Ok => {}
@@ -238,6 +258,77 @@ fn combos(ctx: &Ctx, rep: &mut Report) {
     println!("part parameter-combinations: {} cases, {} violating", cases.len(), bad.len());
     for (k, e) in bad.iter().take(3) {
         emit_violation(ctx, rep, "C08", json!({"part":"parameter-combinations","case":[k.0,k.1,if k.2==usize::MAX {-1} else {k.2 as i64}],"oracle":"sgr-fold","observed":e}));
+    }
+    if bad.len() > 3 {
+        rep.violations += bad.len() as u64 - 3;
+    }
+}
+
+/// Input that collects parameters, a private marker or an intermediate and then ends
+/// without dispatching anything (cancelled by CAN/SUB/ESC/C1, driven into the ignore
+/// state, cut short by the next introducer, or a control string with a header).
+pub const ABORTED: &[&str] = &[
+    "\x1b[3\x18",
+    "\x1b[38;5;1\x1a",
+    "\x1b[4;7<m",
+    "\x1b[1;2:3?m",
+    "\x1b[38;5;1",
+    "\x1b[1;2;3;4;5;6;7;8;9;10;11;12;13;14;15;16;17;18",
+    "\x1b[0:7",
+    "\x1b[?4",
+    "\x1b[5$",
+    "\u{9b}7\u{9c}",
+    "\u{9b}4;3\u{81}",
+    "\x1bP1;4q\u{9c}",
+    "\x1bP1;4qxy\x1b\\",
+    "\u{90}7;9$qm\u{9c}",
+    "\x1b]4;1;red\x07",
+    "\x1b]1;3\u{9c}",
+    "\x1b_31m\u{9c}",
+    "\x1b(",
+];
+
+/// every representative SGR (alone, and pairs in one sequence) directly after
+/// each aborted input, 7- and 8-bit introducer: the pen folds only the SGR's own
+/// parameters
+fn after_aborted(ctx: &Ctx, rep: &mut Report) {
+    let set = rep_set();
+    let mut cases: Vec<(usize, Vec<Vec<Option<u32>>>)> = vec![];
+    for (pi, _) in ABORTED.iter().enumerate() {
+        for a in &set {
+            cases.push((pi, a.clone()));
+            let bs: Vec<&Vec<Vec<Option<u32>>>> = match ctx.tier {
+                Tier::Quick => set.iter().step_by(4).collect(),
+                Tier::Thorough => set.iter().collect(),
+            };
+            for b in bs {
+                cases.push((pi, a.iter().chain(b.iter()).cloned().collect()));
+            }
+        }
+    }
+    let bad: Vec<(usize, String)> = cases
+        .par_iter()
+        .filter_map(|(pi, toks)| {
+            for c1 in [false, true] {
+                // once from the default pen, once from a loaded pen
+                for lead in [vec![], vec![vec![vec![Some(1u32)], vec![Some(4)], vec![Some(33)]]]] {
+                    let mut seqs = lead.clone();
+                    seqs.push(toks.clone());
+                    if let Err(e) = run_sgr_pre(ABORTED[*pi], &seqs, c1) {
+                        return Some((*pi, format!("{} then SGR {:?} ({}-bit CSI): {}", esc(ABORTED[*pi]), toks, if c1 { 8 } else { 7 }, e)));
+                    }
+                }
+            }
+            None
+        })
+        .collect();
+    rep.evaluations += cases.len() as u64 * 4;
+    rep.traces_validated += cases.len() as u64 * 4;
+    rep.transitions += cases.len() as u64 * 4;
+    rep.parts.push(json!({"part":"after-aborted-sequences","aborted_inputs":ABORTED.len(),"cases":cases.len(),"runs":cases.len()*4,"violating":bad.len()}));
+    println!("part after-aborted-sequences: {} cases, {} violating", cases.len(), bad.len());
+    for (pi, e) in bad.iter().take(3) {
+        emit_violation(ctx, rep, "C08", json!({"part":"after-aborted-sequences","aborted":esc(ABORTED[*pi]),"oracle":"sgr-fold","observed":e}));
     }
     if bad.len() > 3 {
         rep.violations += bad.len() as u64 - 3;
@@ -326,19 +417,21 @@ pub fn run(ctx: &Ctx) -> Report {
     combos(ctx, &mut rep);
     all_indices(ctx, &mut rep);
     long_sequences(ctx, &mut rep);
-    rep.rule = "(a) lock-step BFS to FIXPOINT over the pen space: every implemented SGR code as its own sequence (both colour encodings, 7/8-bit CSI, unknown codes), each followed by CR, a printed char and EL; the hidden pen and both cells (all nine accessors) are compared for every reachable prior pen; (b) every ordered pair and triple from 24 representative parameters inside one sequence and as separate sequences, 7- and 8-bit; (c) all 256 indices x fg/bg x ';' and ':' forms; (d) lock-step BFS from a letter-filled screen over every way of blanking cells (EL/ED/ECH/ICH/DCH/IL/DL/SU/SD, LF/RI/NEL and wrap scrolls in top-anchored, inner and full regions, alternate-screen entry) under three pens: a vacated blank must carry the current pen".into();
+    after_aborted(ctx, &mut rep);
+    rep.rule = "(a) lock-step BFS to FIXPOINT over the pen space: every implemented SGR code as its own sequence (both colour encodings, 7/8-bit CSI, unknown codes), each followed by CR, a printed char and EL; the hidden pen and both cells (all nine accessors) are compared for every reachable prior pen; (b) every ordered pair and triple from 24 representative parameters inside one sequence and as separate sequences, 7- and 8-bit; (c) all 256 indices x fg/bg x ';' and ':' forms; (d) lock-step BFS from a letter-filled screen over every way of blanking cells (EL/ED/ECH/ICH/DCH/IL/DL/SU/SD, LF/RI/NEL and wrap scrolls in top-anchored, inner and full regions, alternate-screen entry) under three pens: a vacated blank must carry the current pen; (e) every representative parameter and pair directly after each of 18 inputs that collect parameters but dispatch nothing (cancelled, ignored, unfinished sequences, control strings with headers), 7- and 8-bit CSI, from the default and a loaded pen".into();
     rep.assumptions = vec!["malformed colour forms and components > 255 are unspecified and not generated".into()];
     rep
 }
 
 pub fn replay(ctx: &Ctx, v: &Value) -> bool {
     match v["part"].as_str().unwrap_or("") {
-        "parameter-combinations" | "all-indices" | "long-sequences" => {
+        "parameter-combinations" | "all-indices" | "long-sequences" | "after-aborted-sequences" => {
             let mut rep = Report::new();
             let c2 = Ctx { id: ctx.id.clone(), tier: Tier::Thorough, seed: 0, start: ctx.start, known: ctx.known.clone(), replay_dir: ctx.replay_dir.clone() };
             combos(&c2, &mut rep);
             all_indices(&c2, &mut rep);
             long_sequences(&c2, &mut rep);
+            after_aborted(&c2, &mut rep);
             rep.violations > 0
         }
         "every-way-of-blanking" => {
